@@ -228,6 +228,38 @@ type TIntTags struct {
 	G int8   `parquet:",int(16)"`
 	H uint16 `parquet:",uint(32)"`
 }
+
+// TFixedArrays: fixed-length byte arrays of lengths around the 8- and 16-byte
+// kernels, optional (null when all bytes are zero) and required.
+type TFixedArrays struct {
+	A3  [3]byte  `parquet:",optional"`
+	A8  [8]byte  `parquet:",optional"`
+	A9  [9]byte  `parquet:",optional"`
+	A12 [12]byte `parquet:",optional"`
+	A13 [13]byte `parquet:",optional"`
+	A20 [20]byte `parquet:",optional"`
+	A24 [24]byte `parquet:",optional"`
+	R17 [17]byte
+}
+type tTimeIn struct {
+	T time.Time `parquet:",optional"`
+	N int32
+}
+
+// TTimeLogical: Go time types on the logical types the schema accepts for them.
+type TTimeLogical struct {
+	D    time.Time      `parquet:",date"`
+	DP   *time.Time     `parquet:",date"`
+	TSm  time.Time      `parquet:",timestamp(millisecond)"`
+	TSn  time.Time      `parquet:",timestamp(nanosecond)"`
+	U    string         `parquet:",uuid"`
+	Dur  time.Duration  `parquet:",time(millisecond)"`
+	DurU time.Duration  `parquet:",time(microsecond)"`
+	DurN time.Duration  `parquet:",time(nanosecond)"`
+	DurP *time.Duration `parquet:",time(millisecond)"`
+	P    *tTimeIn
+	L    []tTimeIn
+}
 type tOptInner struct {
 	X int32
 	Y string
@@ -462,7 +494,7 @@ var rowTypes = []*RT{
 	mkRT[TNested]("Nested"), mkRT[TSliceOfStruct]("SliceOfStruct"), mkRT[TListOfStruct]("ListOfStruct"),
 	mkRT[TListOfList]("ListOfList"), mkRT[TMap]("Map"), mkRT[TMapOfStruct]("MapOfStruct"),
 	mkRT[TMapOfSlice]("MapOfSlice"), mkRT[TEmbedded]("Embedded"), mkRT[TDeep]("Deep"), mkRT[TBoolRuns]("BoolRuns"),
-	mkRT[TStrings]("Strings"), mkRT[TFloatsOnly]("FloatsOnly"), mkRT[TPtrStructList]("PtrStructList"), mkRT[TDictNested]("DictNested"), mkRT[TOptStruct]("OptStruct"), mkRT[TEmbeddedMid]("EmbeddedMid"), mkRT[TDictFixed]("DictFixed"), mkRT[TIntTags]("IntTags"),
+	mkRT[TStrings]("Strings"), mkRT[TFloatsOnly]("FloatsOnly"), mkRT[TPtrStructList]("PtrStructList"), mkRT[TDictNested]("DictNested"), mkRT[TOptStruct]("OptStruct"), mkRT[TEmbeddedMid]("EmbeddedMid"), mkRT[TDictFixed]("DictFixed"), mkRT[TIntTags]("IntTags"), mkRT[TFixedArrays]("FixedArrays"), mkRT[TTimeLogical]("TimeLogical"),
 }
 
 // ---------------------------------------------------------------------------
@@ -574,6 +606,51 @@ func leafAlphabet(t reflect.Type) []reflect.Value {
 	return nil
 }
 
+var durationType = reflect.TypeOf(time.Duration(0))
+
+// fieldAlphabet is alphabet() for a struct field, except where the parquet tag
+// narrows the values the field can represent: UUID text in a string, calendar
+// days, times of day and timestamps at the precision of the column.
+func fieldAlphabet(f reflect.StructField) []reflect.Value {
+	tag := f.Tag.Get("parquet")
+	t := f.Type
+	elem := t
+	if t.Kind() == reflect.Pointer {
+		elem = t.Elem()
+	}
+	var base []reflect.Value
+	switch {
+	case strings.Contains(tag, "uuid") && elem.Kind() == reflect.String:
+		for _, u := range []string{"00000000-0000-0000-0000-000000000000", "00112233-4455-6677-8899-aabbccddeeff", "ffffffff-ffff-ffff-ffff-ffffffffffff", "80000000-0000-0000-0000-000000000001"} {
+			base = append(base, reflect.ValueOf(u))
+		}
+	case elem == timeType && strings.Contains(tag, "date"):
+		for _, d := range []time.Time{time.Unix(0, 0).UTC(), time.Date(2024, 2, 29, 0, 0, 0, 0, time.UTC), time.Date(1969, 12, 31, 0, 0, 0, 0, time.UTC), time.Date(9999, 12, 31, 0, 0, 0, 0, time.UTC)} {
+			base = append(base, reflect.ValueOf(d))
+		}
+	case elem == timeType && strings.Contains(tag, "timestamp(millisecond)"):
+		for _, d := range []time.Time{time.Unix(0, 0).UTC(), time.Date(2024, 2, 29, 23, 59, 59, 999000000, time.UTC), time.Date(1969, 12, 31, 23, 59, 59, 999000000, time.UTC)} {
+			base = append(base, reflect.ValueOf(d))
+		}
+	case elem == durationType && strings.Contains(tag, "time("):
+		for _, d := range []time.Duration{0, 1500 * time.Millisecond, 24*time.Hour - time.Millisecond, time.Millisecond} {
+			base = append(base, reflect.ValueOf(d))
+		}
+	default:
+		return alphabet(t)
+	}
+	if t.Kind() != reflect.Pointer {
+		return base
+	}
+	out := []reflect.Value{reflect.Zero(t)}
+	for _, e := range base {
+		p := reflect.New(elem)
+		p.Elem().Set(e)
+		out = append(out, p)
+	}
+	return out
+}
+
 func alphabet(t reflect.Type) []reflect.Value {
 	if t == timeType || t == int96Type {
 		return leafAlphabet(t)
@@ -648,7 +725,7 @@ func structAlphabet(t reflect.Type) []reflect.Value {
 	n := t.NumField()
 	fa := make([][]reflect.Value, n)
 	for i := 0; i < n; i++ {
-		fa[i] = alphabet(t.Field(i).Type)
+		fa[i] = fieldAlphabet(t.Field(i))
 	}
 	mk := func(base int, f int, alt int) reflect.Value {
 		v := reflect.New(t).Elem()
@@ -868,6 +945,17 @@ func varyRow(row any, i int) any {
 	for f := 0; f < v.NumField(); f++ {
 		fv := v.Field(f)
 		if !fv.CanSet() {
+			continue
+		}
+		// fields whose tag narrows their values: vary within their own alphabet
+		sf := v.Type().Field(f)
+		if tag := sf.Tag.Get("parquet"); strings.Contains(tag, "uuid") || strings.Contains(tag, "date") || strings.Contains(tag, "time(") || strings.Contains(tag, "timestamp(millisecond)") {
+			if sf.Type.Kind() == reflect.String && strings.Contains(tag, "uuid") {
+				a, b := next(), next()
+				fv.SetString(fmt.Sprintf("%08x-%04x-%04x-%04x-%012x", uint32(a), uint16(a>>32), uint16(a>>48), uint16(b), b>>16))
+			} else if al := fieldAlphabet(sf); len(al) > 0 {
+				fv.Set(al[int(next()%uint64(len(al)))])
+			}
 			continue
 		}
 		switch fv.Kind() {
